@@ -539,6 +539,18 @@ pub fn run_batch(def: &'static PropertyDef, tier: Tier, seed: u64, workers: u64)
     BatchResult { stats, failures, wall_s: t0.elapsed().as_secs_f64(), digests, rdigests }
 }
 
+/// Address-space limit of a process that executes cases (workers, exec-case children): a runaway story on a
+/// broken tree can allocate without bound inside one step, where neither fuel nor the watchdog stops it in
+/// time; the allocation then fails and the process aborts (reported as `abort`), instead of the machine
+/// running out of memory. 6 GiB is far above anything a case on a healthy tree needs (tens of MiB).
+pub fn limit_memory() {
+    let lim = libc::rlimit { rlim_cur: 6 << 30, rlim_max: 6 << 30 };
+    // SAFETY: plain libc call with a valid pointer
+    unsafe {
+        libc::setrlimit(libc::RLIMIT_AS, &lim);
+    }
+}
+
 /// Execute a case in a fresh child process. Returns the violations it reports
 /// (an abort becomes a violation of class `abort`).
 pub fn exec_in_child(def: &'static PropertyDef, case: &Case, tag: &str) -> Vec<Violation> {
@@ -570,7 +582,7 @@ fn same_sig(vs: &[Violation], sig: &str) -> Option<Violation> {
 /// source lines, while a violation with the same signature persists.
 pub fn shrink(def: &'static PropertyDef, case: &Case, v: &Violation, budget: usize) -> (Case, Violation, J) {
     let sig = v.signature();
-    let in_child = v.class == "abort";
+    let in_child = true;
     let mut tried = 0usize;
     let run = |c: &Case, tried: &mut usize| -> Option<Violation> {
         *tried += 1;
@@ -827,7 +839,9 @@ pub fn triage(def: &'static PropertyDef, seed: u64, failures: Vec<(Case, Violati
             continue;
         }
         // confirm, shrink, write, verify in a fresh process
-        let confirm = if v.class == "abort" { exec_in_child(def, &c, "confirm") } else { exec_on_thread(def, &c).violations };
+        // the parent never executes a case itself: a case that runs away (time, memory) on a broken tree would
+        // stay with it as a thread that cannot be stopped
+        let confirm = exec_in_child(def, &c, "confirm");
         let v = match same_sig(&confirm, &v.signature()) {
             Some(v) => v,
             None => {
